@@ -268,6 +268,14 @@ fn render_fn(ctx: &mut Ctx, unit: &Unit, fs: &FnSpec, found: &FoundFn, in_trait_
         }
     }
     let has_ret = !matches!(sig.output, ReturnType::Default);
+    {
+        // return type as it will be emitted (after R-TYPE / @rettype); not usable as a `let` annotation if it is `impl Trait`
+        let rt: Option<String> = match &sig.output {
+            ReturnType::Default => None,
+            ReturnType::Type(_, t) => { let mut t2 = (**t).clone(); let mut nn = Norm::new(fs, unit, false, ""); nn.visit_type_mut(&mut t2); Some(fs.rettype.clone().unwrap_or_else(|| ts(&t2))) }
+        };
+        if let Some(rt) = rt { if !rt.contains("impl ") && !rt.contains("VxIter") { n.ret_ty = parse_str::<Type>(&rt).ok(); } }
+    }
     n.run_block(&mut block, has_ret);
     for (k, s) in pre.into_iter().enumerate() { block.stmts.insert(k, s); }
 
